@@ -296,8 +296,8 @@ def _scenario(case, fault, stats=None, tmp=None):
         # ---- the faulty attempt
         candidates = [s_saved, drive.typed(drive.projection(life.gw))]
         count = 0
-        if fault[0] == "oserror":
-            plan = faultfs.FaultPlan(fault[1], "fail", errno_=(5, 13, 28, 30)[(fault[1] + len(case["state"])) % 4])
+        if fault[0] in ("oserror", "outage"):
+            plan = faultfs.FaultPlan(fault[1], "fail" if fault[0] == "oserror" else "fail_from", errno_=(5, 13, 28, 30)[(fault[1] + len(case["state"])) % 4])
             with faultfs.Layer(plan) as layer:
                 escaped = life.attempt()
             count = len(layer.trace)
@@ -471,6 +471,13 @@ def check_case(case, stats=None, only=None, collect=None):
                 stats.case(f"{key}:os:{k}" if 0 < k < n_ops - 1 else None,
                            {"flavour": case["flavour"], "ext": case["ext"], "fault": ["oserror", k], "of": n_ops} if k % 23 == 0 else None,
                            labels=(case["flavour"], case["ext"], "oserror"))
+        for k in range(n_ops):
+            # the storage is gone for the rest of the attempt (every operation from k on fails, also the clean-up)
+            _, fired = run(("outage", k))
+            if stats is not None and fired:
+                stats.case(f"{key}:out:{k}" if 0 < k < n_ops - 1 else None,
+                           {"flavour": case["flavour"], "ext": case["ext"], "fault": ["outage", k], "of": n_ops} if k % 23 == 0 else None,
+                           labels=(case["flavour"], case["ext"], "outage"))
         for k in range(case.pop("_access_calls", 0)):
             _, fired = run(("denied", k))
             if stats is not None and fired:
